@@ -8,6 +8,22 @@ COMMON_ASSUME = [
 ]
 
 PROPS = {
+    "C08": {
+        "claimed": True,
+        "title": "Unlinkability: the mint never receives a blinding factor",
+        "lean": ["Gonuts.Props.C08", "Gonuts.Tie.WalletWire"],
+        "streams": ["wallet-wire"],
+        "thorough_shards": {"wallet-wire": 4},
+        "level": "proof",
+        "technique": "Lean 4 theorems over a tagged-tree model of every request body a wallet builds (Model.WalletWire: leaves tagged public / number / point / DLEQ transcript / secret in clear / blinding factor; request builders mirroring the composite literals of wallet.go and restore.go and the JSON tags of cashu.go; every operation path with selection, split, token, mint answers and errors as universally quantified oracles); tied to /repo statically (Tie.WalletWire: JSON tags incl. omitempty and pointer types, the rendered field expressions of every request literal, call skeletons of every path, by rfl) and dynamically (stream wallet-wire: real wallets and real mints over an in-process transport; a model-free byte-level monitor searches every request for every blinding factor / DLEQ transcript / output secret the harness learned independently (storage proxy, own NUT-13 derivation from the mnemonic, values returned to the caller) in every encoding, and the shape of every request body is compared with the model's tagged tree through the Lean driver)",
+        "design_ref": "DESIGN.md §4.5, §5 C08, §6 F5",
+        "text": "",
+        "assumptions": COMMON_ASSUME + [
+            "a blinded message B_ = hash_to_curve(secret) + r*G is modelled as an opaque point leaf: that it hides secret and r is the blinding assumption of BDHKE (C10), not proved here",
+            "public text (quote ids, keyset ids, invoices, NUT-20 public keys and signatures, P2PK/HTLC witnesses) is modelled as an opaque public leaf; the byte-level monitor searches it like everything else",
+            "GET requests carry no body; their URLs (mint URL, quote id, keyset id) are searched by the monitor and are not part of the tree model",
+        ],
+    },
     "C18": {
         "claimed": True,
         "title": "Send hands over exactly the requested amount, fees included when asked",
